@@ -53,15 +53,21 @@ def exchange(ident, eph, m2_items, m4_items, via_wire=False):
         g = P.get_session_keys(ident.pairing_data())
         req1, exp = g.send(None)
     m1 = [(k, bytes(v)) for k, v in req1]
+
+    def wire(items, expected):
+        # what HomeKitConnection.post_tlv / CoAP do_pair_verify hand to the generator
+        if not via_wire:
+            return L(items)
+        return TLV.decode_bytes(TLV.encode_list(L(items)), expected=expected)
     try:
-        req3, exp3 = g.send(L(m2_items))
+        req3, exp3 = g.send(wire(m2_items, exp))
     except StopIteration:
         return "early-keys", m1, None, None
     except Exception as e:  # noqa: BLE001
         return "err2 " + type(e).__name__, m1, None, None
     m3 = [(k, bytes(v)) for k, v in req3]
     try:
-        g.send(L(m4_items))
+        g.send(wire(m4_items, exp3))
     except StopIteration as s:
         sid, derive = s.value
         keys = (bytes(sid), derive(b"Control-Salt", b"Control-Write-Encryption-Key"), derive(b"Control-Salt", b"Control-Read-Encryption-Key"), derive(b"Event-Salt", b"Event-Read-Encryption-Key"))
@@ -100,6 +106,31 @@ def run(ctx: Ctx, driver: Driver):
         else:
             if out.startswith("ok"):
                 ctx.violation(f"verify/{kind}/accepted", f"{kind}: session keys were returned for a reply the paired accessory did not produce for this exchange", case)
+        # the same exchange as the IP and CoAP transports see it: the reply is re-encoded and decoded with the
+        # expected-type filter the generator asked for (the direct form above is what BLE hands over)
+        def expressible(items):
+            try:
+                return [(int(k), bytes(v)) for k, v in TLV.decode_bytes(TLV.encode_list(L(items)))] == [(int(k), bytes(v)) for k, v in items]
+            except Exception:  # noqa: BLE001
+                return False
+        if not (expressible(m2) and expressible(m4)):
+            # e.g. two adjacent items of one type: on the wire they are fragments of one value
+            wout, wm3, wkeys = "skipped", None, None
+        else:
+            try:
+                wout, _, wm3, wkeys = exchange(ident, eph, m2, m4, via_wire=True)
+            except Exception as e:  # noqa: BLE001
+                wout, wm3, wkeys = "wire-failed " + type(e).__name__, None, None
+        ctx.evaluations += 1
+        ctx.dist[f"wire:{kind}:{wout.split(' ')[0]}"] += 1
+        if legit and not wout.startswith("ok") and wout != "skipped":
+            ctx.violation(f"verify/{kind}/wire/rejected-genuine", f"{kind} (IP/CoAP decoding): genuine exchange failed with {wout[:60]}", case)
+        if legit and wout.startswith("ok"):
+            w, r, ev = acc.keys()
+            if not acc.check_m3(wm3) or (wkeys[1], wkeys[2], wkeys[3]) != (w, r, ev):
+                ctx.violation(f"verify/{kind}/wire/keys-differ", f"{kind} (IP/CoAP decoding): accessory rejects M3 or keys differ", case)
+        if not legit and wout.startswith("ok"):
+            ctx.violation(f"verify/{kind}/wire/accepted", f"{kind} (IP/CoAP decoding): session keys were returned although the accessory did not produce/accept this exchange ({wout[:40]})", case)
         if to_model:
             pd = ident
             cases.append(case)
@@ -224,7 +255,7 @@ def resume_stream(ctx, driver, rng, rb):
         cases.append({"stream": "resume1", "prev": hx(prev), "sid": hx(sid), "eph": hx(eph)})
         outs.append(items_str(m1))
         lines.append(f"pv.resume1 {hx(prev)} {hx(sid)} {hx(eph)}")
-        kind = rng.choice(["right", "right", "wrong-secret", "tag-bitflip", "no-method", "method-2", "nonempty-plain", "other-eph"])
+        kind = rng.choice(["right", "right", "wrong-secret", "tag-bitflip", "no-method", "method-2", "nonempty-plain", "other-eph", "right+error", "right+state4"])
         new_sid = rb(8)
         secret = prev if kind != "wrong-secret" else rb(32)
         pk_for = ios_pk if kind != "other-eph" else rb(32)
@@ -239,6 +270,10 @@ def resume_stream(ctx, driver, rng, rb):
             m2 = [x for x in m2 if x[0] != 0]
         if kind == "method-2":
             m2[1] = (0, b"\x02")
+        if kind == "right+error":
+            m2 = m2 + [(7, bytes([rng.choice([1, 2, 3, 6, 7])]))]
+        if kind == "right+state4":
+            m2[0] = (6, b"\x04")
         legit = kind == "right"
         try:
             g.send(L(m2))
